@@ -1,7 +1,123 @@
 import Driver.Common
-open Drv
+import KatdalModel.Model.TimeFreq
+open Np Index Drv TimeFreq
 
-/-- stub driver for C17: replaced when the property's model lands -/
-def step (_line : String) : String := "bad-op"
+/-! Line protocol of the C17 model driver.  Rationals travel as `num/den` (or plain integers).
+
+    open <cfg> <pre> <sd> <sc>      mirror model: openV4 then observe
+    spec <cfg> <pre> <sd> <sc>      spec: whole data set, same ranges, later selection relative
+         cfg = sync,first,int,off,T,F,cbf|_,cmc2,cbf4k,centre,bw,d1,d2,d3   (comma separated)
+         pre = <dumps>|<channels>|<extra>   with value `_` (absent) | `s:a:b:c` | `x` (not a slice),
+               extra `-` or `;`-joined key names
+         sd, sc = `_` or an index (`i:3`, `s:a:b:c`, `m:0110`, `l:1,2`)
+       reply  `<ts> <freqs> <dumpPos> <chanPos> <time_offset> <start> <end>`  (lists `;`-joined, `-` empty)
+    validate <pre>                  -> ok | E:IndexError
+    fix <t> <d1> <d2> <d3> <cmc2> <cbf4k>   -> `<formula> <table>` (0/1 each)
+    spw <centre> <width|_> <n> <sb> <bw|_>                -> window description + freqs + edges
+    spwsub <centre> <width|_> <n> <sb> <bw|_> <a> <b>     -> sub-range window | E:IndexError
+    spwrech <centre> <width|_> <n> <sb> <bw|_> <m>        -> re-channelised window
+       window reply `<centre> <width> <bandwidth> <n> <sideband> <freqs> <edgeFirst> <edgeLast>` -/
+
+def parseRat (s : String) : Option Rat :=
+  match s.splitOn "/" with
+  | [a] => (a.toInt?).map fun (i : Int) => (i : Rat)
+  | [a, b] => do
+    let n ← a.toInt?
+    let d ← b.toNat?
+    if d = 0 then none else some (mkRat n d)
+  | _ => none
+
+def showRat (r : Rat) : String := if r.den = 1 then toString r.num else s!"{r.num}/{r.den}"
+
+def showRats (l : List Rat) : String := if l.isEmpty then "-" else ";".intercalate (l.map showRat)
+def showNats (l : List Nat) : String := if l.isEmpty then "-" else ";".intercalate (l.map toString)
+
+def parseBool (s : String) : Option Bool := if s = "1" then some true else if s = "0" then some false else none
+
+def parseCfg (s : String) : Option Cfg :=
+  match s.splitOn "," with
+  | [sync, first, int, off, t, f, cbf, cmc2, cbf4k, centre, bw, d1, d2, d3] => do
+    let sync ← parseRat sync; let first ← parseRat first; let int ← parseRat int; let off ← parseRat off
+    let t ← t.toNat?; let f ← f.toNat?
+    let cbf ← if cbf = "_" then some none else (parseRat cbf).map some
+    let cmc2 ← parseBool cmc2; let cbf4k ← parseBool cbf4k
+    let centre ← parseRat centre; let bw ← parseRat bw
+    let d1 ← parseRat d1; let d2 ← parseRat d2; let d3 ← parseRat d3
+    pure { sync, first, intTime := int, timeOffset := off, T := t, F := f, cbf, cmc2, cbf4k, centre,
+           bandwidth := bw, d1, d2, d3 }
+  | _ => none
+
+def parsePreVal (s : String) : Option (Option PreVal) :=
+  if s = "_" then some none
+  else if s = "x" then some (some .other)
+  else match s.splitOn ":" with
+    | ["s", a, b, c] => do
+      let a ← parseOptInt a; let b ← parseOptInt b; let c ← parseOptInt c
+      pure (some (.slice a b c))
+    | _ => none
+
+def parsePre (s : String) : Option Preselect :=
+  match s.splitOn "|" with
+  | [d, c, e] => do
+    let d ← parsePreVal d; let c ← parsePreVal c
+    pure { dumps := d, channels := c, extra := if e = "-" then [] else e.splitOn ";" }
+  | _ => none
+
+def parseOptIx (s : String) : Option (Option Ix) :=
+  if s = "_" then some none else (parseIx s).map some
+
+def showObs (o : Obs) (off st en : Rat) : String :=
+  s!"{showRats o.ts} {showRats o.freqs} {showNats o.dumpPos} {showNats o.chanPos} {showRat off} {showRat st} {showRat en}"
+
+def parseSpw (c w n sb bw : String) : Option SpW := do
+  let c ← parseRat c
+  let w ← if w = "_" then some 0 else parseRat w
+  let n ← n.toNat?
+  let sb ← sb.toInt?
+  let bw ← if bw = "_" then some none else (parseRat bw).map some
+  pure (SpW.new c w n sb bw)
+
+def showSpw (w : SpW) : String :=
+  s!"{showRat w.centre} {showRat w.width} {showRat w.bandwidth} {w.n} {w.sideband} {showRats w.channelFreqs} {showRat w.edgeFirst} {showRat w.edgeLast}"
+
+def step (line : String) : String :=
+  match line.splitOn " " with
+  | ["open", cfg, pre, sd, sc] =>
+    match parseCfg cfg, parsePre pre, parseOptIx sd, parseOptIx sc with
+    | some c, some p, some sd, some sc =>
+      showExcept (fun (r : Obs × Opened) => showObs r.1 r.2.timeOffset r.2.startT r.2.endT) (do
+        let o ← openV4 c p
+        let obs ← o.observe sd sc
+        pure (obs, o))
+    | _, _, _, _ => "bad-op"
+  | ["spec", cfg, pre, sd, sc] =>
+    match parseCfg cfg, parsePre pre, parseOptIx sd, parseOptIx sc with
+    | some c, some p, some sd, some sc =>
+      showExcept (fun (r : Obs × Rat × Rat × Rat) => showObs r.1 r.2.1 r.2.2.1 r.2.2.2) (specObserve c p sd sc)
+    | _, _, _, _ => "bad-op"
+  | ["validate", pre] =>
+    match parsePre pre with
+    | some p => showExcept (fun _ => "ok") (validatePreselect p)
+    | none => "bad-op"
+  | ["fix", t, d1, d2, d3, cmc2, cbf4k] =>
+    match parseRat t, parseRat d1, parseRat d2, parseRat d3, parseBool cmc2, parseBool cbf4k with
+    | some t, some d1, some d2, some d3, some cmc2, some cbf4k =>
+      let f := fixApplies (decide (t < d1)) (decide (t < d2)) (decide (t < d3)) cmc2 cbf4k
+      let tb := decide (t < fixDate d1 d2 d3 cmc2 cbf4k)
+      s!"{if f then 1 else 0} {if tb then 1 else 0}"
+    | _, _, _, _, _, _ => "bad-op"
+  | ["spw", c, w, n, sb, bw] =>
+    match parseSpw c w n sb bw with
+    | some w => showSpw w
+    | none => "bad-op"
+  | ["spwsub", c, w, n, sb, bw, a, b] =>
+    match parseSpw c w n sb bw, a.toInt?, b.toInt? with
+    | some w, some a, some b => showExcept showSpw (w.subrange a b)
+    | _, _, _ => "bad-op"
+  | ["spwrech", c, w, n, sb, bw, m] =>
+    match parseSpw c w n sb bw, m.toNat? with
+    | some w, some m => showSpw (w.rechannelise m)
+    | _, _ => "bad-op"
+  | _ => "bad-op"
 
 def main : IO Unit := Drv.loop step
